@@ -92,12 +92,24 @@ def HM.keyValues (m : HM κ ν) : Option (List (κ × ν)) :=
 
 end
 
+/-- The rehash decision exactly as `rehash` computes it:
+    `float64(em.total) >= float64(em.capacity)*em.loadfactor` in IEEE double arithmetic
+    (Lean's `Float` is the C `double`; the product is rounded to nearest-even as in Go).
+    The theorems hold for every policy; this is the one the driver runs. -/
+def goPolicy (loadfactor : Float) (total cap : Nat) : Bool :=
+  decide (Float.ofNat cap * loadfactor ≤ Float.ofNat total)
+
+/-- a `float64` from the exact rational `p/q` the harness prints (`q` a power of two, `|p| < 2^53`:
+    both conversions and the division are exact) -/
+def floatOfRat (q : Rat) : Float := Float.ofInt q.num / Float.ofNat q.den
+
 /- ## op scripts -/
 
 inductive HMOp (κ ν : Type) where
   | put (k : κ) (v : ν)
   | get (k : κ)
   | kvs
+  | keys                               -- `Keys()`
   deriving Repr
 
 inductive HMOut (κ ν : Type) where
@@ -105,6 +117,7 @@ inductive HMOut (κ ν : Type) where
   | val (o : Option ν)
   | kvs (l : List (κ × ν))
   | panic
+  | keys (l : List κ)
   deriving Repr
 
 /-- run a script; a panic ends it -/
@@ -123,6 +136,10 @@ def HM.run {κ ν : Type} (hash : κ → UInt64) (eqv : κ → κ → Bool) (pol
     match m.keyValues with
     | none => [.panic]
     | some l => .kvs l :: HM.run hash eqv policy r m
+  | .keys :: r, m =>                   -- the same loop as `KeyValues`, keeping the keys
+    match m.keyValues with
+    | none => [.panic]
+    | some l => .keys (l.map (·.1)) :: HM.run hash eqv policy r m
 
 /- ## EdgeIndex -/
 
@@ -136,6 +153,7 @@ inductive EIOp (κ : Type) where
   | putv (k : κ) (count : Int) (len : Rat)
   | value (k : κ)
   | edges (mn mx : Int)
+  | unindexed                         -- AddEdgeCount / PutEdgeValue of a branch whose `Bitset()` is nil
   deriving Repr
 
 inductive EIOut where
@@ -143,6 +161,7 @@ inductive EIOut where
   | val (o : Option EIInfo)
   | nedges (n : Nat)
   | panic
+  | err                               -- "Bitset not initialized"
   deriving DecidableEq, Repr
 
 /-- the filter of `EdgeIndex.Edges(minCount, maxCount)` -/
@@ -178,5 +197,6 @@ def EI.run {κ : Type} (hash : κ → UInt64) (eqv : κ → κ → Bool) (policy
     match m.keyValues with
     | none => [.panic]
     | some l => .nedges (l.filter fun kv => eiKeep mn mx kv.2).length :: EI.run hash eqv policy r m
+  | .unindexed :: r, m => .err :: EI.run hash eqv policy r m       -- the guard returns before touching the map
 
 end Gotree.C04
